@@ -242,6 +242,10 @@ func (e *env) apply(b bug.Interface, c Call, unix int64) error {
 		_, _, err = bug.EditComment(b, a, unix, target(s, c.T), currentText(s, target(s, c.T), i), e.files(i, c.Wf), nil)
 	case "title":
 		_, err = bug.SetTitle(b, a, unix, fmt.Sprintf("title %d", i), nil)
+	case "titlestale":
+		// written by hand: the editing API fills `was` with the title in force
+		t := fmt.Sprintf("title %d", i)
+		b.Append(bug.NewSetTitleOp(a, unix, t, t))
 	case "status":
 		if c.S == "open" {
 			_, err = bug.Open(b, a, unix, nil)
@@ -369,8 +373,8 @@ func (w *worker) run(v Vec, withCache bool) string {
 	// path 3: the cache's incrementally maintained snapshot
 	if withCache {
 		for _, c := range v.Calls {
-			if c.K == "noop" {
-				return "" // the cache API has no no-op call
+			if c.K == "noop" || c.K == "titlestale" {
+				return "" // the cache API has no no-op call, and fills the `was` of a title change itself
 			}
 		}
 		cb, _, err := w.cache.Bugs().NewRaw(w.ce.authors[1], unix, "title 1", "message 1", w.ce.files(1, v.Calls[0].Wf), map[string]string{"k0": "own"})
